@@ -117,6 +117,7 @@ class Hub:
         self.rx_log: list[tuple[float, str, bytes]] = []  # every delivery to a port
         self.tx_count: dict[tuple[str, bytes], int] = {}
         self.fault_counts: dict[str, int] = {}
+        self.tx_policy = None  # fn(port, frame_bytes, nth) -> True if the whole transmission is lost
         self.echo_policy = None  # fn(port, frame_bytes, nth) -> list[float] latencies
         self.on_frame = None  # fn(port, frame_bytes, nth): engine hook after firmware
         self.cast_between_ports = True
@@ -221,6 +222,9 @@ class Hub:
             frame = frame[:7] + ser.gid + frame[16:]
         key = (ser.name, frame)
         nth = self.tx_count[key] = self.tx_count.get(key, 0) + 1
+        if self.tx_policy is not None and self.tx_policy(ser, frame, nth):
+            self.count("tx_lost")  # the transmission never made it onto the air: no echo, nobody hears it
+            return
         # echo to the sender
         lats = [0.01] if self.echo_policy is None else self.echo_policy(ser, frame, nth)
         for lat in lats:
